@@ -21,7 +21,7 @@ EXPLANATION = (
     'only on identity (never on equality); (e) batched list updates are '
     'applied in descending KeyPath order.  Agreement of results with CPython '
     'over operation histories is differential by nature and not decided.')
-FLOORS = {'C02.a': 1, 'C02.b': 5, 'C02.c': 4, 'C02.d': 4, 'C02.e': 2}
+FLOORS = {'C02.a': 1, 'C02.b': 2, 'C02.c': 2, 'C02.d': 2, 'C02.e': 1}
 FILES = ['pyglove/core/symbolic/list.py', 'pyglove/core/symbolic/dict.py',
          'pyglove/core/symbolic/base.py']
 
